@@ -86,6 +86,8 @@ def build_unit(position: str, off: int) -> Unit:
                 m.items.append(Field("p_" + tag, TBase("uint", pad), num))
                 num += 1
         assert num <= 256, num
+        if off % 2:
+            m.items.reverse()  # declaration order is not part of the layout: on every other grid the fields are written in descending number order
         msgs.append(m)
     f.items.extend(msgs)
     u = Unit([f])
